@@ -53,6 +53,10 @@ func backendRaceOps() []raceOp {
 		{"Write", true, func(in *raceInst, g, i int) { _ = in.be.Write(bg, raceKeys[i%4], "w") }},
 		{"WriteNew", true, func(in *raceInst, g, i int) { _ = in.be.Write(bg, []byte(fmt.Sprintf("n%d-%d", g, i)), "w") }},
 		{"WriteTTL", true, func(in *raceInst, g, i int) { _ = in.be.Write(ttlCtx(time.Minute), raceKeys[i%4], "w") }},
+		// keys private to the goroutine: no bucket lock orders the two writers
+		{"WriteTTLOwnKeys", true, func(in *raceInst, g, i int) {
+			_ = in.be.Write(ttlCtx(time.Minute), []byte(fmt.Sprintf("own-%d-%d", g, i)), "w")
+		}},
 		{"Delete", true, func(in *raceInst, g, i int) { _ = in.be.Delete(bg, raceKeys[i%4]) }},
 		{"ExpireAll", true, func(in *raceInst, g, i int) { in.be.ExpireAll(bg) }},
 		{"DeleteAll", true, func(in *raceInst, g, i int) { in.be.DeleteAll(bg) }},
